@@ -270,16 +270,13 @@ theorem solveBase_multisig_pass (keys : List Bytes) (F : KeyFacts C dig ht z key
   rfl
 
 /-- the same from a fresh input (no script, no witness) -/
-theorem solveBase_multisig_fresh (keys : List Bytes) (F : KeyFacts C dig ht z keys.reverse sg) (lookup : Lookup) (m : Nat)
+theorem solveBase_multisig_fresh (keys : List Bytes) (hz : dig ht = some z) (lookup : Lookup) (m : Nat)
     (ph : Bytes) (hh : LookupHonest C lookup ht z sg (enumFrom 0 keys.reverse).reverse) :
     solveBase C lookup dig [] ht (some ph) (.multisig m keys) =
       .ok (some [] :: (stateItems keys.reverse.length m sg ph
         (passSet keys.reverse.length m (fun _ => false) (inTOf lookup keys.reverse))).reverse) := by
   simp only [solveBase]
-  have := signingSolver_pass F lookup m [] ph (fun _ => false) (by simp) (by simp) (by simp [slotIdxs])
-    (by intro i; simp [slotIdxs]) hh
-  simp only [List.map_nil] at this
-  rw [this]
+  rw [signingSolver_fresh lookup hz m ph hh]
   rfl
 
 /-- what one pass leaves for the next to read: the data of the solution, then `extra` -/
@@ -326,7 +323,7 @@ theorem runPasses_fresh (keys : List Bytes) (F : KeyFacts C dig ht z keys.revers
         (runSets keys.reverse.length m ((l :: ls).map (fun l => inTOf l keys.reverse)) (fun _ => false)) extra).map
           (·.render sg)) := by
   simp only [runPasses, passExisting]
-  rw [solveBase_multisig_fresh keys F l m ph (hh l (by simp))]
+  rw [solveBase_multisig_fresh keys F.hz l m ph (hh l (by simp))]
   simp only []
   rw [← stateSlots_render]
   have hc0 : card keys.reverse.length (fun _ => false) ≤ m := by
